@@ -1,12 +1,518 @@
-(* Stream/TotalProofs.v — proofs about the instrumented decoder (C14). *)
+(* Stream/TotalProofs.v — proofs about the instrumented decoder (C14):
+     tdecode_spec          the instrumented decoder never takes a Panic branch, computes exactly what the plain
+                           decoder computes, and its meter never decreases (by induction over the universe)
+     digest_no_panic       update_digest on a well-formed value panics only for the class F-C14-1
+     pos_hash_refuted      ... and that class is inhabited (the finding)
+   plus consumed <= length, rejection of trailing / missing bytes, and the allocation facts that are proved. *)
 From Coq Require Import String.
 From ChiaV.Base Require Import Bytes.
-From ChiaV.Stream Require Import Universe Versioned Codec Total.
+From ChiaV.Stream Require Import Universe Versioned Codec CodecProofs Total ValText.
+From Coq Require Import ZifyBool ZifyNat ZifyN.
 Open Scope N_scope.
+Local Opaque n2be.
 
 Lemma t_from_bytes_ok O tr t bs v a :
   t_from_bytes O tr t bs = FOk v a -> tdecode O tr t bs 0 = TOk v [] a.
 Proof.
   unfold t_from_bytes. destruct (tdecode O tr t bs 0) as [v' r a'|a'|]; try discriminate.
   destruct r; [|discriminate]. now intros [= -> ->].
+Qed.
+
+(* ================= part p14 ================= *)
+
+(* the instrumented result refines the plain one, never panics, and the meter never decreases *)
+Definition tspec (x : tres) (d : dres) (a : N) : Prop :=
+  match x with
+  | TOk v r a' => d = Some (v, r) /\ a <= a'
+  | TErr a' => d = None /\ a <= a'
+  | TPanic => False
+  end.
+
+Lemma tspec_bind x d a k (kd : value -> bytes -> dres) :
+  tspec x d a ->
+  (forall v r a', a <= a' -> tspec (k v r a') (kd v r) a') ->
+  tspec (tbind x k) (match d with Some (v, r) => kd v r | None => None end) a.
+Proof.
+  destruct x as [v r a'|a'|]; cbn [tspec tbind]; [| |contradiction].
+  - intros [-> Ha] Hk. specialize (Hk v r a' Ha). destruct (k v r a'); cbn [tspec] in *; intuition lia.
+  - intros [-> Ha] _. auto.
+Qed.
+
+Lemma t_array_spec n bs a k (kd : bytes -> bytes -> dres) :
+  (forall b r, length b = n -> tspec (k b r) (kd b r) a) ->
+  tspec (t_array n bs a k) (match read_bytes n bs with Some (b, r) => kd b r | None => None end) a.
+Proof.
+  intros Hk. unfold t_array. destruct (read_bytes n bs) as [[b r]|] eqn:E; [|cbn; split; [reflexivity|lia]].
+  apply read_bytes_spec in E as [_ Hl]. rewrite (proj2 (Nat.eqb_eq _ _) Hl). now apply Hk.
+Qed.
+
+Lemma t_byte_spec bs a k (kd : N -> bytes -> dres) :
+  (forall x r, tspec (k x r) (kd x r) a) ->
+  tspec (t_byte bs a k) (match read_bytes 1 bs with Some (b, r) => kd (be2n b) r | None => None end) a.
+Proof.
+  intros Hk. unfold t_byte. destruct (read_bytes 1 bs) as [[b r]|] eqn:E; [|cbn; split; [reflexivity|lia]].
+  apply read_bytes_spec in E as [_ Hl]. destruct b as [|x [|y b]]; try discriminate. rewrite be2n_single. apply Hk.
+Qed.
+
+Lemma tspec_ok v r a : tspec (TOk v r a) (Some (v, r)) a.
+Proof. cbn. split; [reflexivity|lia]. Qed.
+Lemma tspec_err a : tspec (TErr a) None a.
+Proof. cbn. split; [reflexivity|lia]. Qed.
+Lemma tspec_weaken x d a a0 : a0 <= a -> tspec x d a -> tspec x d a0.
+Proof. destruct x; cbn; intuition lia. Qed.
+
+Lemma t_u_spec n bs a : tspec (t_u n bs a) (dec_u n bs) a.
+Proof. unfold t_u, dec_u. apply (t_array_spec n bs a _ (fun b r => Some (VInt (u_of_bytes b), r))). intros. apply tspec_ok. Qed.
+Lemma t_i_spec n bs a : tspec (t_i n bs a) (dec_i n bs) a.
+Proof. unfold t_i, dec_i. apply (t_array_spec n bs a _ (fun b r => Some (VInt (i_of_bytes n b), r))). intros. apply tspec_ok. Qed.
+Lemma t_u_n_spec n bs a k (kd : N -> bytes -> dres) :
+  (forall x r, tspec (k x r) (kd x r) a) ->
+  tspec (t_u_n n bs a k) (match dec_u_n n bs with Some (x, r) => kd x r | None => None end) a.
+Proof.
+  intros Hk. unfold t_u_n, dec_u_n. destruct (read_bytes n bs) as [[b r]|] eqn:E.
+  - pose proof (t_array_spec n bs a (fun b r => k (be2n b) r) (fun b r => kd (be2n b) r) (fun b r _ => Hk (be2n b) r)) as H.
+    now rewrite E in H.
+  - pose proof (t_array_spec n bs a (fun b r => k (be2n b) r) (fun b r => kd (be2n b) r) (fun b r _ => Hk (be2n b) r)) as H.
+    now rewrite E in H.
+Qed.
+Lemma t_bool_spec bs a : tspec (t_bool bs a) (dec_bool bs) a.
+Proof.
+  unfold t_bool, dec_bool.
+  apply (t_byte_spec bs a _ (fun x r => match x with 0 => Some (VBool false, r) | 1 => Some (VBool true, r) | _ => None end)).
+  intros x r. destruct x as [|[p|p|]]; try apply tspec_err; apply tspec_ok.
+Qed.
+Lemma t_bytesn_spec n bs a : tspec (t_bytesn n bs a) (dec_bytesn n bs) a.
+Proof. unfold t_bytesn, dec_bytesn. apply (t_array_spec n bs a _ (fun b r => Some (VBytes b, r))). intros. apply tspec_ok. Qed.
+
+Lemma t_bytes_spec bs a : tspec (t_bytes bs a) (dec_bytes bs) a.
+Proof.
+  unfold t_bytes, t_lenpref, dec_bytes, dec_lenpref.
+  pose proof (t_u_n_spec 4 bs a
+     (fun n r => match read_bytes (N.to_nat (N.min n (nlen r + 1))) r with None => TErr a | Some (b, r') => TOk (VBytes b) r' (a + nlen b) end)
+     (fun n r => match read_bytes (N.to_nat (N.min n (nlen r + 1))) r with Some (b, r') => Some (VBytes b, r') | None => None end)) as H.
+  destruct (dec_u_n 4 bs) as [[n r]|]; cbn in H |- *.
+  - apply H. intros x r0. destruct (read_bytes _ r0) as [[b r']|]; cbn; split; try reflexivity; lia.
+  - apply H. intros x r0. destruct (read_bytes _ r0) as [[b r']|]; cbn; split; try reflexivity; lia.
+Qed.
+
+Lemma t_str_spec bs a : tspec (t_str bs a) (dec_str bs) a.
+Proof.
+  unfold t_str, dec_str, dec_lenpref.
+  pose proof (t_u_n_spec 4 bs a
+     (fun n r => match read_bytes (N.to_nat (N.min n (nlen r + 1))) r with None => TErr a | Some (b, r') => if utf8_ok b then TOk (VBytes b) r' (a + nlen b) else TErr a end)
+     (fun n r => match read_bytes (N.to_nat (N.min n (nlen r + 1))) r with Some (b, r') => if utf8_ok b then Some (VBytes b, r') else None | None => None end)) as H.
+  destruct (dec_u_n 4 bs) as [[n r]|]; cbn in H |- *.
+  - apply H. intros x r0. destruct (read_bytes _ r0) as [[b r']|]; [destruct (utf8_ok b)|]; cbn; split; try reflexivity; lia.
+  - apply H. intros x r0. destruct (read_bytes _ r0) as [[b r']|]; [destruct (utf8_ok b)|]; cbn; split; try reflexivity; lia.
+Qed.
+
+Lemma t_g1_spec O tr bs a : tspec (t_g1 O tr bs a) (dec_g1 O tr bs) a.
+Proof. unfold t_g1, dec_g1. apply (t_array_spec 48 bs a _ (fun b r => if g1_ok O tr b then Some (VBytes b, r) else None)). intros b r _. destruct (g1_ok O tr b); [apply tspec_ok|apply tspec_err]. Qed.
+Lemma t_g2_spec O tr bs a : tspec (t_g2 O tr bs a) (dec_g2 O tr bs) a.
+Proof. unfold t_g2, dec_g2. apply (t_array_spec 96 bs a _ (fun b r => if g2_ok O tr b then Some (VBytes b, r) else None)). intros b r _. destruct (g2_ok O tr b); [apply tspec_ok|apply tspec_err]. Qed.
+Lemma t_sk_spec bs a : tspec (t_sk bs a) (dec_sk bs) a.
+Proof. unfold t_sk, dec_sk. apply (t_array_spec 32 bs a _ (fun b r => if sk_ok b then Some (VBytes b, r) else None)). intros b r _. destruct (sk_ok b); [apply tspec_ok|apply tspec_err]. Qed.
+
+Lemma t_prog_spec O tr bs a : tspec (t_prog O tr bs a) (dec_prog O tr bs) a.
+Proof.
+  unfold t_prog, dec_prog. destruct (prog_len O tr bs) as [n|]; [|cbn; split; [reflexivity|lia]].
+  destruct (N.ltb_spec (nlen bs) n) as [Hlt|Hge].
+  - destruct (N.leb_spec n (nlen bs)); [lia|]. cbn. split; [reflexivity|lia].
+  - destruct (N.leb_spec n (nlen bs)); [|lia]. cbn. split; [reflexivity|lia].
+Qed.
+
+Lemma t_opt_spec (dec : bytes -> N -> tres) (d : bytes -> dres) bs a :
+  (forall bs a, tspec (dec bs a) (d bs) a) -> tspec (t_opt dec bs a) (dec_opt d bs) a.
+Proof.
+  intros Hd. unfold t_opt, dec_opt.
+  apply (t_byte_spec bs a _ (fun x r => match x with 0 => Some (VNone, r) | 1 => '(v, r') <- d r ;; Some (VSome v, r') | _ => None end)).
+  intros x r.
+  destruct x as [|[p|p|]]; try apply tspec_err; [apply tspec_ok|].
+  pose proof (tspec_bind (dec r a) (d r) a (fun v r' a' => TOk (VSome v) r' a') (fun v r' => Some (VSome v, r')) (Hd r a)) as H.
+  apply H. intros. apply tspec_ok.
+Qed.
+
+Lemma t_pos_spec O tr bs a : tspec (t_pos O tr bs a) (dec_pos O tr bs) a.
+Proof. unfold t_pos. destruct (dec_pos O tr bs) as [[v r]|]; unfold tspec; split; try reflexivity; apply N.le_add_r. Qed.
+Lemma t_gentail_spec O tr bs a : tspec (t_gentail O tr bs a) (dec_gentail O tr bs) a.
+Proof. unfold t_gentail. destruct (dec_gentail O tr bs) as [[v r]|]; unfold tspec; split; try reflexivity; [apply N.le_add_r|rewrite <- N.add_assoc; apply N.le_add_r]. Qed.
+
+(* ---------- loops ---------- *)
+Lemma rev_append_nil {A} (l : list A) : rev_append l [] = rev l.
+Proof. rewrite rev_append_rev. apply app_nil_r. Qed.
+
+Definition tspec_l (x : tres) (d : option (list value * bytes)) (acc : list value) (a : N) : Prop :=
+  match x with
+  | TOk v r a' => exists l, d = Some (l, r) /\ v = VList (rev acc ++ l) /\ a <= a'
+  | TErr a' => d = None /\ a <= a'
+  | TPanic => False
+  end.
+
+Lemma t_vec_loop_spec dec1 d1 :
+  (forall bs a, tspec (dec1 bs a) (d1 bs) a) ->
+  forall n sz cap cnt acc bs a, tspec_l (t_vec_loop dec1 n sz cap cnt acc bs a) (dec_rep d1 n bs) acc a.
+Proof.
+  intros Hd. induction n as [|n IH]; intros sz cap cnt acc bs a; cbn [t_vec_loop dec_rep].
+  - cbn. exists []. rewrite rev_append_nil, app_nil_r. repeat split; lia.
+  - specialize (Hd bs a). destruct (dec1 bs a) as [v r a1|a1|]; cbn [tspec] in Hd; [| |contradiction].
+    + destruct Hd as [-> Ha].
+      destruct ((sz =? 0) || (cnt <? cap)).
+      * specialize (IH sz cap (cnt + 1) (v :: acc) r a1).
+        destruct (t_vec_loop dec1 n sz cap (cnt + 1) (v :: acc) r a1) as [v' r' a'|a'|]; cbn [tspec_l] in *; [| |contradiction].
+        -- destruct IH as (l & -> & -> & Ha'). exists (v :: l). cbn [rev]. rewrite <- app_assoc. repeat split; lia.
+        -- destruct IH as [-> Ha']. split; [reflexivity|lia].
+      * specialize (IH sz (grow_cap cap sz) (cnt + 1) (v :: acc) r (a1 + grow_cap cap sz * sz)).
+        destruct (t_vec_loop dec1 n sz (grow_cap cap sz) (cnt + 1) (v :: acc) r (a1 + grow_cap cap sz * sz)) as [v' r' a'|a'|]; cbn [tspec_l] in *; [| |contradiction].
+        -- destruct IH as (l & -> & -> & Ha'). exists (v :: l). cbn [rev]. rewrite <- app_assoc. repeat split; lia.
+        -- destruct IH as [-> Ha']. split; [reflexivity|lia].
+    + destruct Hd as [-> Ha]. cbn. split; [reflexivity|lia].
+Qed.
+
+Lemma t_rep_spec dec1 d1 :
+  (forall bs a, tspec (dec1 bs a) (d1 bs) a) ->
+  forall n acc bs a, tspec_l (t_rep dec1 n acc bs a) (dec_rep d1 n bs) acc a.
+Proof.
+  intros Hd. induction n as [|n IH]; intros acc bs a; cbn [t_rep dec_rep].
+  - cbn. exists []. rewrite rev_append_nil, app_nil_r. repeat split; lia.
+  - specialize (Hd bs a). destruct (dec1 bs a) as [v r a1|a1|]; cbn [tspec] in Hd; [| |contradiction].
+    + destruct Hd as [-> Ha]. specialize (IH (v :: acc) r a1).
+      destruct (t_rep dec1 n (v :: acc) r a1) as [v' r' a'|a'|]; cbn [tspec_l] in *; [| |contradiction].
+      * destruct IH as (l & -> & -> & Ha'). exists (v :: l). cbn [rev]. rewrite <- app_assoc. repeat split; lia.
+      * destruct IH as [-> Ha']. split; [reflexivity|lia].
+    + destruct Hd as [-> Ha]. cbn. split; [reflexivity|lia].
+Qed.
+
+Lemma t_seq_spec (dec : ty -> bytes -> N -> tres) (d : ty -> bytes -> dres) ts :
+  Forall (fun t => forall bs a, tspec (dec t bs a) (d t bs) a) ts ->
+  forall acc bs a, tspec_l (t_seq dec ts acc bs a) (dec_seq d ts bs) acc a.
+Proof.
+  induction 1 as [|t ts Ht _ IH]; intros acc bs a; cbn [t_seq dec_seq].
+  - cbn. exists []. rewrite rev_append_nil, app_nil_r. repeat split; lia.
+  - specialize (Ht bs a). destruct (dec t bs a) as [v r a1|a1|]; cbn [tspec] in Ht; [| |contradiction].
+    + destruct Ht as [-> Ha]. specialize (IH (v :: acc) r a1).
+      destruct (t_seq dec ts (v :: acc) r a1) as [v' r' a'|a'|]; cbn [tspec_l] in *; [| |contradiction].
+      * destruct IH as (l & -> & -> & Ha'). exists (v :: l). cbn [rev]. rewrite <- app_assoc. repeat split; lia.
+      * destruct IH as [-> Ha']. split; [reflexivity|lia].
+    + destruct Ht as [-> Ha]. cbn. split; [reflexivity|lia].
+Qed.
+
+Lemma t_fields_spec (dec : ty -> bytes -> N -> tres) (d : ty -> bytes -> dres) fs :
+  Forall (fun f => (forall bs a, tspec (dec (snd f) bs a) (d (snd f) bs) a) /\
+                   (forall bs v r, d (snd f) bs = Some (v, r) -> exists vs, unpack (snd f) v = Some vs)) fs ->
+  forall acc bs a, tspec_l (t_fields dec fs acc bs a) (dec_fields d fs bs) acc a.
+Proof.
+  induction 1 as [|f fs [Hf Hu] _ IH]; intros acc bs a; cbn [t_fields dec_fields].
+  - cbn. exists []. rewrite rev_append_nil, app_nil_r. repeat split; lia.
+  - specialize (Hf bs a). destruct (dec (snd f) bs a) as [v r a1|a1|]; cbn [tspec] in Hf; [| |contradiction].
+    + destruct Hf as [Hd Ha]. rewrite Hd. destruct (Hu _ _ _ Hd) as (vs & Hvs). rewrite Hvs.
+      specialize (IH (rev_append vs acc) r a1).
+      destruct (t_fields dec fs (rev_append vs acc) r a1) as [v' r' a'|a'|]; cbn [tspec_l] in *; [| |contradiction].
+      * destruct IH as (l & -> & -> & Ha'). exists (vs ++ l). rewrite rev_append_rev, rev_app_distr, rev_involutive, <- app_assoc.
+        repeat split; lia.
+      * destruct IH as [-> Ha']. split; [reflexivity|lia].
+    + destruct Hf as [-> Ha]. cbn. split; [reflexivity|lia].
+Qed.
+
+(* ================= part p15 ================= *)
+
+Lemma decode_unpack O tr t bs v r : decode O tr t bs = Some (v, r) -> exists vs, unpack t v = Some vs.
+Proof.
+  intros H. destruct t; try (eexists; reflexivity).
+  - cbn [decode] in H. inv_as H p r1 Ep.
+    destruct p as [|[[q|q|]|[q|q|]|]]; try discriminate H.
+    + injection H as <- <-. eexists; reflexivity.
+    + inv_as H x r2 Ex. inv_as H y r3 Ey. injection H as <- <-. eexists; reflexivity.
+    + inv_as H y r2 Ey. injection H as <- <-. eexists; reflexivity.
+    + inv_as H x r2 Ex. injection H as <- <-. eexists; reflexivity.
+  - cbn [decode] in H. unfold dec_gentail in H. inv_as H p r1 Ep.
+    destruct (p / 2 =? 0).
+    + inv_as H g r2 Eg. inv_as H n r3 En. destruct (n * 4 <=? nlen r3); [|discriminate].
+      inv_as H refs r4 Er. injection H as <- <-. eexists; reflexivity.
+    + destruct (p / 2 =? 1); [|discriminate]. inv_as H b r2 Eb. injection H as <- <-. eexists; reflexivity.
+Qed.
+
+Section Total.
+  Variable O : oracles.
+  Variable tr : bool.
+
+  Theorem tdecode_spec t : forall bs a, tspec (tdecode O tr t bs a) (decode O tr t bs) a.
+  Proof.
+    induction t using ty_ind'; intros bs a; cbn [tdecode decode].
+    - apply t_u_spec.
+    - apply t_i_spec.
+    - apply t_bool_spec.
+    - apply t_bytesn_spec.
+    - apply t_bytes_spec.
+    - apply t_str_spec.
+    - apply t_opt_spec. exact IHt.
+    - (* Vec *)
+      apply (t_u_n_spec 4 bs a _ (fun n r => if (min_size t =? 0) || (n <=? nlen r)
+                                             then '(l, r') <- dec_rep (decode O tr t) (N.to_nat n) r ;; Some (VList l, r') else None)).
+      intros n r.
+      set (fits := (min_size t =? 0) || (n <=? nlen r)).
+      set (n' := if fits then n else nlen r + 1).
+      pose proof (t_vec_loop_spec _ _ IHt (N.to_nat n') (mem_size t) (vec_cap0 (mem_size t) n) 0 [] r
+                                  (a + vec_cap0 (mem_size t) n * mem_size t)) as Hl.
+      destruct (t_vec_loop (tdecode O tr t) (N.to_nat n') (mem_size t) (vec_cap0 (mem_size t) n) 0 [] r
+                           (a + vec_cap0 (mem_size t) n * mem_size t)) as [v r' a'|a'|]; cbn [tspec_l] in Hl; [| |contradiction].
+      + destruct Hl as (l & Hd & -> & Ha). cbn [rev app]. unfold n' in Hd.
+        destruct fits; [rewrite Hd|]; cbn; split; try reflexivity; lia.
+      + destruct Hl as [Hd Ha]. unfold n' in Hd.
+        destruct fits; [rewrite Hd|]; cbn; split; try reflexivity; lia.
+    - (* Tup *)
+      pose proof (t_seq_spec _ _ ts H [] bs a) as Hl.
+      destruct (t_seq (tdecode O tr) ts [] bs a) as [v r' a'|a'|]; cbn [tspec_l] in Hl; [| |contradiction].
+      + destruct Hl as (l & -> & -> & Ha). cbn. split; [reflexivity|lia].
+      + destruct Hl as [-> Ha]. cbn. split; [reflexivity|lia].
+    - (* Arr *)
+      pose proof (t_rep_spec _ _ IHt n [] bs a) as Hl.
+      destruct (t_rep (tdecode O tr t) n [] bs a) as [v r' a'|a'|]; cbn [tspec_l] in Hl; [| |contradiction].
+      + destruct Hl as (l & -> & -> & Ha). cbn. split; [reflexivity|lia].
+      + destruct Hl as [-> Ha]. cbn. split; [reflexivity|lia].
+    - (* Enum *)
+      apply (t_u_n_spec 1 bs a _ (fun n r => if existsb (N.eqb n) ds then Some (VInt (Z.of_N n), r) else None)).
+      intros n r. destruct (existsb (N.eqb n) ds); [apply tspec_ok|apply tspec_err].
+    - (* Struct *)
+      assert (Hall : Forall (fun f => (forall bs a, tspec (tdecode O tr (snd f) bs a) (decode O tr (snd f) bs) a) /\
+                                      (forall bs v r, decode O tr (snd f) bs = Some (v, r) -> exists vs, unpack (snd f) v = Some vs)) fs).
+      { eapply Forall_impl; [|exact H]. intros f Hf. split; [exact Hf|]. intros. eapply decode_unpack; eauto. }
+      pose proof (t_fields_spec _ _ fs Hall [] bs a) as Hl.
+      destruct (t_fields (tdecode O tr) fs [] bs a) as [v r' a'|a'|]; cbn [tspec_l] in Hl; [| |contradiction].
+      + destruct Hl as (l & -> & -> & Ha). cbn. split; [reflexivity|lia].
+      + destruct Hl as [-> Ha]. cbn. split; [reflexivity|lia].
+    - apply t_g1_spec.
+    - apply t_g2_spec.
+    - apply t_prog_spec.
+    - apply t_sk_spec.
+    - (* Opt2 *)
+      apply (t_u_n_spec 1 bs a _ (fun p r =>
+        match p with
+        | 0 => Some (VList [VNone; VNone], r)
+        | 1 => '(x, r1) <- decode O tr t1 r ;; Some (VList [VSome x; VNone], r1)
+        | 2 => '(y, r1) <- decode O tr t2 r ;; Some (VList [VNone; VSome y], r1)
+        | 3 => '(x, r1) <- decode O tr t1 r ;; '(y, r2) <- decode O tr t2 r1 ;; Some (VList [VSome x; VSome y], r2)
+        | _ => None
+        end)).
+      intros p r. destruct p as [|[[q|q|]|[q|q|]|]]; try apply tspec_err.
+      + apply tspec_ok.
+      + apply (tspec_bind _ _ _ _ (fun x r1 => '(y, r2) <- decode O tr t2 r1 ;; Some (VList [VSome x; VSome y], r2)) (IHt1 r a)).
+        intros x r1 a1 Ha1.
+        apply (tspec_bind _ _ _ _ (fun y r2 => Some (VList [VSome x; VSome y], r2)) (IHt2 r1 a1)).
+        intros. apply tspec_ok.
+      + apply (tspec_bind _ _ _ _ (fun y r1 => Some (VList [VNone; VSome y], r1)) (IHt2 r a)). intros. apply tspec_ok.
+      + apply (tspec_bind _ _ _ _ (fun x r1 => Some (VList [VSome x; VNone], r1)) (IHt1 r a)). intros. apply tspec_ok.
+    - apply t_pos_spec.
+    - apply t_gentail_spec.
+  Qed.
+
+  (* never a panic *)
+  Corollary tdecode_no_panic t bs a : tdecode O tr t bs a <> TPanic.
+  Proof. intros H. pose proof (tdecode_spec t bs a) as Hs. rewrite H in Hs. exact Hs. Qed.
+
+  Corollary t_from_bytes_no_panic t bs : t_from_bytes O tr t bs <> FPanic.
+  Proof.
+    unfold t_from_bytes. pose proof (tdecode_spec t bs 0) as Hs.
+    destruct (tdecode O tr t bs 0) as [v r a|a|]; [destruct r; discriminate|discriminate|contradiction].
+  Qed.
+
+  (* the instrumented decoder computes what the plain one computes *)
+  Corollary tdecode_ok t bs a v r a' : tdecode O tr t bs a = TOk v r a' -> decode O tr t bs = Some (v, r).
+  Proof. intros H. pose proof (tdecode_spec t bs a) as Hs. rewrite H in Hs. apply Hs. Qed.
+  Corollary tdecode_err t bs a a' : tdecode O tr t bs a = TErr a' -> decode O tr t bs = None.
+  Proof. intros H. pose proof (tdecode_spec t bs a) as Hs. rewrite H in Hs. apply Hs. Qed.
+
+  Corollary t_from_bytes_ok_iff t bs v :
+    (exists a, t_from_bytes O tr t bs = FOk v a) <-> from_bytes_gen O tr t bs = Some v.
+  Proof.
+    unfold t_from_bytes, from_bytes_gen. pose proof (tdecode_spec t bs 0) as Hs.
+    destruct (tdecode O tr t bs 0) as [v' r a|a|]; cbn [tspec] in Hs; [| |contradiction].
+    - destruct Hs as [-> _]. destruct r; split.
+      + intros (a0 & [= -> _]). reflexivity.
+      + intros [= ->]. now exists a.
+      + intros (a0 & H). discriminate.
+      + discriminate.
+    - destruct Hs as [-> _]. split; [intros (a0 & H); discriminate|discriminate].
+  Qed.
+End Total.
+
+
+(* ================= part p16 ================= *)
+
+Definition np_spec (dig : value -> digres) (chk : value -> bool) (ex : value -> bool) : Prop :=
+  forall v, chk v = true -> ex v = false -> exists b, dig v = DOk b.
+
+Lemma dig_list_np dig1 chk1 ex1 :
+  np_spec dig1 chk1 ex1 -> forall l, forallb chk1 l = true -> existsb ex1 l = false -> exists b, dig_list dig1 l = DOk b.
+Proof.
+  intros Hs. induction l as [|x l IH]; cbn [forallb existsb dig_list]; intros Hc Hx; [eexists; reflexivity|].
+  apply andb_prop in Hc as [Hc1 Hc2]. apply orb_false_elim in Hx as [Hx1 Hx2].
+  destruct (Hs x Hc1 Hx1) as (b1 & ->). destruct (IH Hc2 Hx2) as (b2 & ->). eexists; reflexivity.
+Qed.
+
+Lemma dig_seq_np (dig : ty -> value -> digres) chk ex ts :
+  Forall (fun t => np_spec (dig t) (chk t) (ex t)) ts ->
+  forall l, chk_seq chk ts l = true -> ex_seq ex ts l = false -> exists b, dig_seq dig ts l = DOk b.
+Proof.
+  induction 1 as [|t ts Ht _ IH]; intros [|x l]; cbn [chk_seq ex_seq dig_seq]; try discriminate; intros Hc Hx; try (eexists; reflexivity).
+  apply andb_prop in Hc as [Hc1 Hc2]. apply orb_false_elim in Hx as [Hx1 Hx2].
+  destruct (Ht x Hc1 Hx1) as (b1 & ->). destruct (IH l Hc2 Hx2) as (b2 & ->). eexists; reflexivity.
+Qed.
+
+Lemma dig_fields_np (dig : ty -> value -> digres) chk ex fs :
+  Forall (fun f => np_spec (dig (snd f)) (chk (snd f)) (ex (snd f))) fs ->
+  forall l, chk_fields chk fs l = true -> ex_fields ex fs l = false -> exists b, dig_fields dig fs l = DOk b.
+Proof.
+  induction 1 as [|f fs Hf _ IH]; intros l; cbn [chk_fields ex_fields dig_fields]; intros Hc Hx; [eexists; reflexivity|].
+  destruct (pack (snd f) l) as [[v l']|]; [|discriminate].
+  apply andb_prop in Hc as [Hc1 Hc2]. apply orb_false_elim in Hx as [Hx1 Hx2].
+  destruct (Hf v Hc1 Hx1) as (b1 & ->). destruct (IH l' Hc2 Hx2) as (b2 & ->). eexists; reflexivity.
+Qed.
+
+Lemma dig_pos_np O tr : np_spec (dig_pos O) (wf_pos O tr) (pos_bad_quality O).
+Proof.
+  intros v Hw Hx. destruct (pos_is_v2 v) eqn:Ev.
+  - destruct (dig_pos_v2 O tr v Hw Ev) as (head & pf & He & Hd). rewrite Hd.
+    apply wf_pos_inv in Hw as (ch & pk & c & ppk & ver & pi & mg & st & sz & pf' & -> & _).
+    cbn [pos_is_v2] in Ev. unfold pos_bad_quality in Hx. rewrite Ev, He in Hx. cbn [andb] in Hx.
+    destruct (quality O (head ++ n2be 4 (nlen pf) ++ pf)); [eexists; reflexivity|discriminate].
+  - destruct (pos_rt O tr v Hw) as (e & He & _). rewrite (dig_pos_v1 O tr v e Hw Ev He). eexists; reflexivity.
+Qed.
+
+Lemma dig_gentail_np O tr full v : wf_gentail O tr v = true -> exists b, dig_gentail full v = DOk b.
+Proof.
+  intros Hw.
+  apply wf_gentail_inv in Hw as (gn & refs & buf & ver & -> & Hgn & Hok & Hrefs & Hbuf & Hver & Hsh).
+  unfold dig_gentail. cbn [gentail_shape_ok] in Hsh.
+  destruct (in_range_u1_cases ver Hver) as [-> | [-> | [E0 E1]]]; [| |rewrite E0, E1 in Hsh; discriminate].
+  - replace (0 =? 0)%Z with true by reflexivity.
+    destruct (enc_opt_bytes gn); [destruct (enc_u32s refs)|]; eexists; reflexivity.
+  - replace (1 =? 0)%Z with false by reflexivity. replace (1 =? 1)%Z with true by reflexivity.
+    destruct Hbuf as [-> | (l & -> & _)]; [eexists; reflexivity|]. destruct (bytes_of_ints l); eexists; reflexivity.
+Qed.
+
+Section Ops.
+  Variable O : oracles.
+  Variable tr : bool.
+
+  Theorem digest_no_panic t : np_spec (digest O t) (wf O tr t) (has_bad_pos O t).
+  Proof.
+    unfold has_bad_pos.
+    induction t using ty_ind'; intros v Hw Hx; cbn [wf has_pos digest] in *;
+      try (destruct v; try discriminate; eexists; reflexivity).
+    - (* Opt *) destruct v; try discriminate; cbn [wf_optval] in Hw; try (eexists; reflexivity).
+      destruct (IHt v Hw Hx) as (b & ->). eexists; reflexivity.
+    - (* Vec *) destruct v; try discriminate. apply andb_prop in Hw as [_ Hf].
+      destruct (dig_list_np _ _ _ IHt l Hf Hx) as (b & ->). eexists; reflexivity.
+    - (* Tup *) destruct v; try discriminate. eapply dig_seq_np; eauto.
+    - (* Arr *) destruct v; try discriminate. apply andb_prop in Hw as [_ Hf]. eapply dig_list_np; eauto.
+    - (* Struct *) destruct v; try discriminate. eapply dig_fields_np; eauto.
+    - (* Opt2 *) destruct v; try discriminate. destruct l as [|oa [|ob [|? ?]]]; try discriminate.
+      apply andb_prop in Hw as [Ha Hb]. apply orb_false_elim in Hx as [Hxa Hxb].
+      destruct oa as [| | | |x|]; try discriminate; destruct ob as [| | | |y|]; try discriminate;
+        cbn [wf_optval dig_optval] in *.
+      + eexists; reflexivity.
+      + destruct (IHt2 y Hb Hxb) as (b & ->). eexists; reflexivity.
+      + destruct (IHt1 x Ha Hxa) as (b & ->). eexists; reflexivity.
+      + destruct (IHt1 x Ha Hxa) as (b1 & ->). destruct (IHt2 y Hb Hxb) as (b2 & ->). eexists; reflexivity.
+    - (* PoS *) eapply dig_pos_np; eauto.
+    - (* GenTail *) eapply dig_gentail_np; eauto.
+  Qed.
+End Ops.
+
+Lemma value_eqb_refl v : ValText.value_eqb v v = true.
+Proof.
+  revert v. fix IH 1. intros [z|b|b| |x|l]; cbn [ValText.value_eqb].
+  - apply Z.eqb_refl.
+  - now destruct b.
+  - apply bytes_eqb_refl.
+  - reflexivity.
+  - apply IH.
+  - induction l as [|x l IHl]; [reflexivity|]. rewrite (IH x). exact IHl.
+Qed.
+
+(* every operation a receiver performs on a decoded value completes, except hashing a value of the known class *)
+Theorem ops_on_decoded_total O (Hs : prog_len_stable_hyp O) tr t bs v r :
+  decode O tr t bs = Some (v, r) ->
+  (exists e, encode t v = Some e) /\
+  (has_bad_pos O t v = false -> exists b, digest O t v = DOk b) /\
+  ValText.value_eqb v v = true.
+Proof.
+  intros H. apply (decode_sound O Hs) in H as (Hw & e & He & _).
+  split; [now exists e|]. split; [|apply value_eqb_refl].
+  intros Hx. now apply (digest_no_panic O tr t v Hw Hx).
+Qed.
+
+(* the known class is real: a decodable v2 proof of space without a quality string; hashing it panics *)
+Lemma pos_hash_refuted :
+  from_bytes toy_oracles PoS f_c14_1_witness = Some f_c14_1_value /\
+  from_bytes_unchecked toy_oracles PoS f_c14_1_witness = Some f_c14_1_value /\
+  encode PoS f_c14_1_value = Some f_c14_1_witness /\
+  digest toy_oracles PoS f_c14_1_value = DPanic /\ has_bad_pos toy_oracles PoS f_c14_1_value = true.
+Proof. vm_compute. repeat split; reflexivity. Qed.
+
+(* ================= part p17 ================= *)
+(* ================= consumed <= length; trailing / missing bytes ================= *)
+Lemma consumed_le_length O (Hs : prog_len_stable_hyp O) tr t bs v r :
+  decode O tr t bs = Some (v, r) -> nlen r <= nlen bs.
+Proof. intros H. apply (decode_sound O Hs) in H as (_ & e & _ & ->). rewrite nlen_app. lia. Qed.
+
+Lemma t_consumed_le_length O (Hs : prog_len_stable_hyp O) tr t bs a v r a' :
+  tdecode O tr t bs a = TOk v r a' -> nlen r <= nlen bs.
+Proof. intros H. apply tdecode_ok in H. eapply consumed_le_length; eauto. Qed.
+
+Lemma t_trailing_rejected O (Hs : prog_len_stable_hyp O) (Hp : prog_len_pos_hyp O) tr t bs v a extra :
+  t_from_bytes O tr t bs = FOk v a -> extra <> [] -> exists a', t_from_bytes O tr t (bs ++ extra) = FErr a'.
+Proof.
+  intros H Hx. assert (Hf : from_bytes_gen O tr t bs = Some v) by (apply t_from_bytes_ok_iff; eauto).
+  pose proof (trailing_rejected O Hs Hp tr t bs v extra Hf Hx) as Hn.
+  destruct (t_from_bytes O tr t (bs ++ extra)) as [v' a'|a'|] eqn:E.
+  - assert (from_bytes_gen O tr t (bs ++ extra) = Some v') by (apply t_from_bytes_ok_iff; eauto). congruence.
+  - eauto.
+  - now apply t_from_bytes_no_panic in E.
+Qed.
+
+Lemma t_missing_rejected O (Hs : prog_len_stable_hyp O) (Hp : prog_len_pos_hyp O) tr t bs v a extra :
+  t_from_bytes O tr t (bs ++ extra) = FOk v a -> extra <> [] -> exists a', t_from_bytes O tr t bs = FErr a'.
+Proof.
+  intros H Hx. assert (Hf : from_bytes_gen O tr t (bs ++ extra) = Some v) by (apply t_from_bytes_ok_iff; eauto).
+  pose proof (missing_rejected O Hs Hp tr t bs v extra Hf Hx) as Hn.
+  destruct (t_from_bytes O tr t bs) as [v' a'|a'|] eqn:E.
+  - assert (from_bytes_gen O tr t bs = Some v') by (apply t_from_bytes_ok_iff; eauto). congruence.
+  - eauto.
+  - now apply t_from_bytes_no_panic in E.
+Qed.
+
+(* ================= allocation: what is proved ================= *)
+(* Vec::with_capacity(min(2 MiB / size_of::<T>(), len)) never reserves more than 2 MiB, whatever length is claimed *)
+Lemma vec_prealloc_bounded sz n : vec_cap0 sz n * sz <= MiB2 /\ vec_cap0 sz n <= n.
+Proof.
+  unfold vec_cap0. destruct (N.eqb_spec sz 0) as [->|Hz]; [split; lia|].
+  split; [|lia].
+  apply N.le_trans with (MiB2 / sz * sz).
+  - apply N.mul_le_mono_r. lia.
+  - rewrite N.mul_comm. apply N.mul_div_le. exact Hz.
+Qed.
+
+(* the allocating leaves retain at most what they consumed (Program: plus the per-byte scratch charge) *)
+Lemma t_bytes_alloc bs a v r a' : t_bytes bs a = TOk v r a' -> a' + nlen r + 4 <= a + nlen bs.
+Proof.
+  intros H. pose proof (t_bytes_spec bs a) as Hs. rewrite H in Hs. destruct Hs as [Hd _].
+  apply dec_bytes_spec in Hd as (b & -> & Hl & ->).
+  unfold t_bytes, t_lenpref, t_u_n, t_array in H.
+  rewrite read_bytes_app in H by apply n2be_length. rewrite n2be_length, Nat.eqb_refl in H.
+  rewrite be2n_n2be in H by (change (256 ^ N.of_nat 4) with (pow256 4); rewrite <- u32_max_pow; lia).
+  replace (N.to_nat (N.min (nlen b) (nlen (b ++ r) + 1))) with (length b) in H by (rewrite nlen_app; unfold nlen; lia).
+  rewrite read_bytes_app in H by reflexivity. injection H as <-.
+  rewrite !nlen_app, nlen_n2be. lia.
+Qed.
+
+Lemma t_prog_alloc O tr bs a v r a' :
+  t_prog O tr bs a = TOk v r a' -> a' <= a + (1 + clvm_per_byte) * (nlen bs - nlen r) /\ nlen r <= nlen bs.
+Proof.
+  unfold t_prog. destruct (prog_len O tr bs) as [n|]; [|discriminate].
+  destruct (N.ltb_spec (nlen bs) n); [discriminate|]. destruct (N.leb_spec n (nlen bs)); [|discriminate].
+  intros [= <- <- <-].
+  assert (Hr : nlen (skipn (N.to_nat n) bs) = nlen bs - n) by (unfold nlen; rewrite skipn_length; lia).
+  rewrite Hr. split; [|lia]. replace (nlen bs - (nlen bs - n)) with n by lia.
+  rewrite N.min_l by lia. destruct tr; lia.
 Qed.
